@@ -36,7 +36,7 @@ func genIdentityProgram(r *rand.Rand, churn bool) string {
 	sb.WriteString(label("spl_object_id.same", fmt.Sprintf(`echo spl_object_id($o0) === spl_object_id($o0) ? "same" : "differs", ",", spl_object_id($o0) === spl_object_id($o1) ? "shared" : "distinct";`)))
 	if churn {
 		// many short-lived objects: the handle of each must not depend on when memory is reused
-		m := 20000 + r.Intn(20000)
+		m := 5000 + r.Intn(5000) // enough allocation for several GC cycles; ~0.5 MB of output
 		sb.WriteString(label("var_dump.handle.churn", fmt.Sprintf(`for ($i = 0; $i < %d; $i++) { $t = new C20Id(); $t->n = $i; var_dump($t); }`, m)))
 	}
 	return sb.String()
